@@ -103,6 +103,22 @@ func validate(rule, s string) bool {
 	return validator.Validate(&tAddr{s}) == nil
 }
 
+// another implementation of module.Address, and a value that only has an Address() method
+type foreign struct {
+	ic bool
+	id []byte
+}
+
+func (f foreign) String() string                { return "foreign" }
+func (f foreign) Bytes() []byte                 { return append([]byte{map[bool]byte{false: 0, true: 1}[f.ic]}, f.id...) }
+func (f foreign) ID() []byte                    { return f.id }
+func (f foreign) IsContract() bool              { return f.ic }
+func (f foreign) Equal(a module.Address) bool   { return a != nil && a.IsContract() == f.ic && bytes.Equal(a.ID(), f.id) }
+
+type holder struct{ a module.Address }
+
+func (h holder) Address() module.Address { return h.a }
+
 type fail struct {
 	violation bool
 	key, what string
@@ -263,6 +279,35 @@ func runBehaviour(steps []rec, variant int, rnd *rand.Rand) (string, *fail) {
 		case "iscontract":
 			if cur.IsContract() != r.Contract {
 				return input, &fail{true, "iscontract", fmt.Sprintf("%s.IsContract() = %v", cur.String(), cur.IsContract())}
+			}
+		case "copy":
+			if r.Nil {
+				var n *common.Address
+				if common.AddressToPtr(nil) != nil || common.ToAddress(nil) != nil || new(common.Address).Set(nil).String() != new(common.Address).String() || n != nil {
+					return input, &fail{true, "copy:nil", "conversion of a nil address is not nil"}
+				}
+				break
+			}
+			other := foreign{cur.IsContract(), append([]byte{}, cur.ID()...)}
+			cands := map[string]*common.Address{
+				"Set":                  new(common.Address).Set(cur),
+				"Set(foreign)":         new(common.Address).Set(other),
+				"AddressToPtr":         common.AddressToPtr(cur),
+				"AddressToPtr(foreign)": common.AddressToPtr(other),
+				"ToAddress":            common.ToAddress(cur),
+				"ToAddress(foreign)":   common.ToAddress(other),
+				"ToAddress(addresser)": common.ToAddress(holder{cur}),
+			}
+			if a, err := common.NewAddressFromString(cur.String()); err == nil {
+				cands["NewAddressFromString"] = a
+			} else {
+				return input, &fail{true, "copy:string", err.Error()}
+			}
+			cands["MustNewAddressFromString"] = common.MustNewAddressFromString(cur.String())
+			for k, a := range cands {
+				if a == nil || *a != *cur || a.IsContract() != r.Contract {
+					return input, &fail{true, "copy:" + k, fmt.Sprintf("%s of %s gives %v", k, cur.String(), a)}
+				}
 			}
 		case "equal":
 			var other *common.Address
